@@ -25,7 +25,7 @@ From SK Require Import lib.LGraph model.C01_Model model.C02_Model model.C09_Mode
   proof.C09_Canon proof.C09_Valid proof.C09_Balance proof.C09_Main proof.C09_Indep proof.C09_Indep2 proof.C09_ValidRC proof.C09_WL proof.C09_NautyRigid proof.C09_Nauty.
 From SK Require Import lib.StrJoin model.C09_Strings model.C09_State proof.C09_Str proof.C09_Expand proof.C09_Graph proof.C09_Backends proof.C09_State proof.C09_StrFit.
 From SK Require Import model.C09_Helpers proof.C09_Helpers model.C09_Records proof.C09_Records proof.C09_Top proof.C09_Opt.
-From SK Require Import model.C01_String model.C01_HBal model.C09_Normalize proof.C09_Normalize proof.C09_NormBalance proof.C09_WLRefuted.
+From SK Require Import model.C01_String model.C01_HBal model.C09_Normalize proof.C09_Normalize proof.C09_NormBalance proof.C09_WLRefuted proof.C09_WLFix.
 From SK Require model.C08_Model proof.C08_Spec model.C01_Opts.
 Import ListNotations.
 
@@ -664,9 +664,11 @@ Print Assumptions C09_canonicalise_fails_iff.
        * independence, back-end wl: proved under the STRONGER hypothesis "pairwise distinct WL colours" (theorems named
          _distinct_colours) and REFUTED under the text's hypothesis: C09_numbering_independent_wl_refuted (known finding
          wl-tied-colours-distinguishable: distinguishable atoms that share their WL colour are ordered by the input numbering);
-       * fixed point: the text puts NO condition on it; proved for rigid reactant graphs (nauty, theorems named _rigid) and for
-         distinct colours (wl, _distinct_colours).  On symmetric reactants / tied colours the clause is ORACLE ONLY (checked
-         unconditionally on every canonicaliser case: canon-fixed-point; it holds on all populations).
+       * fixed point: the text puts NO condition on it.  wl: proved without any condition on the colours for the canonical graphs
+         themselves as second input (C09_fixed_point_wl, also with tied colours), and for every parsed presentation of them /
+         the string level under distinct colours (_distinct_colours).  nauty: proved for rigid reactant graphs (_rigid); on
+         reactant graphs with automorphisms the clause is ORACLE ONLY (checked unconditionally on every canonicaliser case:
+         canon-fixed-point; it holds on all populations).
        Vocabulary (proof/C09_Graph.v, proof/C09_Backends.v):
          [same_graph X Y]   = Permutation (gnodes X) (gnodes Y) /\ Permutation (map nflip (gedges X)) (map nflip (gedges Y)),
                               nflip (u, v, o) = (min u v, max u v, o): the same labelled graph, whatever the order of the atom
@@ -798,6 +800,22 @@ Theorem C09_numbering_independent_wl_refuted :
       same_graph Nc2 Nc1 /\ same_graph Mc2 Mc1.
 Proof. exact numbering_independent_wl_refuted. Qed.
 Print Assumptions C09_numbering_independent_wl_refuted.
+
+(** fixed point for back-end wl WITHOUT the hypothesis of distinct colours (audit finding 2): after the first run the node ids
+    of the canonical reactant graph ARE the positions in the (colour, degree, id) order, so - when the colours of the second
+    run correspond (networkx contract: premise) - the second stable sort is the identity also with TIED colours (a sorted list
+    is a fixed point of the sort).  Graph level, the canonical graphs themselves as second input (bonds in the same order);
+    together with C09_canon_wl_is_relabelling this is the text's unconditional fixed-point clause for wl up to the RDKit
+    round trip.  For nauty on graphs with automorphisms the clause stays oracle-only. *)
+Theorem C09_fixed_point_wl : forall (ranks1 ranks2 : list (N * Z)) (G H : mgraph),
+  parsed G -> parsed H -> (exists s, In s (node_ids G) /\ In s (node_ids H)) ->
+  (forall n, In n (node_ids G) -> C08_Model.rank_of ranks2 (sigma_of (wl_order ranks1 G) n) = C08_Model.rank_of ranks1 n) ->
+  exists (pairs1 : list (N * N)) (Gc1 Hc1 : mgraph),
+    canonicalise_wl ranks1 G H = Some (Gc1, pairs1, Hc1) /\
+    exists (pairs2 : list (N * N)) (Gc2 Hc2 : mgraph),
+      canonicalise_wl ranks2 Gc1 Hc1 = Some (Gc2, pairs2, Hc2) /\ same_upto_order Gc2 Gc1 /\ same_upto_order Hc2 Hc1.
+Proof. exact fixed_point_wl_ties. Qed.
+Print Assumptions C09_fixed_point_wl.
 
 (** the canonical graphs are parsed graphs themselves (distinct positive ids, atom_map = id), for every canonical order *)
 Theorem C09_canonical_graphs_parsed : forall (G H Gc1 : mgraph) (order1 : list N),
